@@ -136,6 +136,7 @@ Theorem super_init_ok_l : forall bs mtime comp s,
   s_magic s = c_SQFS_MAGIC /\ s_vmaj s = 4 /\ s_vmin s = 0 /\ s_bytes_used s = sizeof_sqfs_super_t.
 Proof.
   intros bs mtime comp s H. unfold super_init in H.
+  remember (log_loop 64 bs 0) as lg eqn:Elg.
   destruct (N.land bs (bs - 1) =? 0) eqn:E1; cbn [negb] in H; [|discriminate].
   destruct (bs <? c_SQFS_MIN_BLOCK_SIZE) eqn:E2; [discriminate|].
   destruct (c_SQFS_MAX_BLOCK_SIZE <? bs) eqn:E3; [discriminate|].
@@ -152,7 +153,7 @@ Proof.
   assert (K2 : k <= 20).
   { apply (N.pow_le_mono_r_iff 2); [lia|]. rewrite <- P, <- Vmax. exact E3. }
   assert (Hk : k = 12 \/ k = 13 \/ k = 14 \/ k = 15 \/ k = 16 \/ k = 17 \/ k = 18 \/ k = 19 \/ k = 20) by lia.
-  clear E1 E2 E3 Hn K1 K2. subst bs.
+  clear E1 E2 E3 Hn K1 K2. subst bs lg.
   destruct Hk as [-> |[-> |[-> |[-> |[-> |[-> |[-> |[-> | ->]]]]]]]]; vm_compute; reflexivity.
 Qed.
 
@@ -199,10 +200,12 @@ Section Table.
   Proof.
     induction fuel as [|f IH]; intros data m raws locs m' locs' HI Hc Hk Hf size0 H.
     - destruct data; [|simpl in Hf; lia]. simpl in H. inversion H; subst.
-      exists []. rewrite Hc. simpl. rewrite !app_nil_r. repeat split; try assumption; constructor.
+      exists []. rewrite Hc. simpl. rewrite !app_nil_r.
+      split; [exact HI|]. split; [constructor|]. split; [exact Hk|]. split; reflexivity.
     - destruct data as [|x d0].
       { simpl in H. inversion H; subst.
-        exists []. rewrite Hc. simpl. rewrite !app_nil_r. repeat split; try assumption; constructor. }
+        exists []. rewrite Hc. simpl. rewrite !app_nil_r.
+      split; [exact HI|]. split; [constructor|]. split; [exact Hk|]. split; reflexivity. }
       remember (x :: d0) as data eqn:Ed. cbn [TableModel.wt_loop] in H. rewrite Ed in H at 1.
       pose proof MB_pos as HP.
       assert (Hd : 0 < lenN data) by (rewrite Ed, lenN_cons; lia).
@@ -220,32 +223,32 @@ Section Table.
         rewrite takeN_all in C1, A1 by lia.
         assert (Hd' : dropN (lenN data) data = []).
         { apply lenN_0. rewrite lenN_dropN. lia. }
-        rewrite Hd' in H. destruct f; simpl in H; inversion H; subst m' locs'.
+        rewrite Hd' in H.
+        assert (Hnil : forall mm ll, wt_loop f mm size0 [] ll = Ok (mm, ll)) by (intros; destruct f; reflexivity).
+        rewrite Hnil in H. injection H as <- <-. simpl app in I1.
         assert (Hf1 : fulls1 = []).
         { destruct fulls1 as [|g r]; [reflexivity|]. exfalso.
-          inversion F1 as [|? ? Hg _]; subst. unfold full in Hg.
-          assert (lenN (concat (g :: r) ++ mw_cur m1) = lenN data) by (rewrite C1; reflexivity).
-          simpl in H0. rewrite !lenN_app in H0. lia. }
-        subst fulls1. simpl in C1. exists []. rewrite app_nil_r.
+          pose proof (Forall_inv F1) as Hg. unfold full in Hg.
+          assert (Hll : lenN (concat (g :: r) ++ mw_cur m1) = lenN data) by (rewrite C1; reflexivity).
+          simpl in Hll. rewrite !lenN_app in Hll. lia. }
+        subst fulls1. simpl in C1. exists []. rewrite app_nil_r in *.
         split; [split; assumption|]. split; [constructor|]. split; [exact K1|].
         split; [exact C1|].
         rewrite C1. assert (NE : ne data = [data]) by (rewrite Ed; reflexivity).
         rewrite NE. simpl. f_equal. f_equal.
         unfold loc_of. simpl. rewrite Lout. unfold loc_of. simpl. reflexivity.
-        (* duplicate branch for f = S _ is handled by the ; above *)
-        all: fail.
       + (* a full chunk: exactly one block is flushed *)
         apply N.ltb_ge in Q. unfold diff in *.
         assert (Ht : lenN (takeN MB data) = MB) by (rewrite lenN_takeN; lia).
         assert (Hf1 : fulls1 = [takeN MB data] /\ mw_cur m1 = []).
         { assert (Hl : lenN (concat fulls1) + lenN (mw_cur m1) = MB) by (rewrite <- lenN_app, C1; exact Ht).
           destruct fulls1 as [|g [|g2 r]].
-          - simpl in Hl. rewrite lenN_nil in Hl. lia.
-          - inversion F1 as [|? ? Hg _]; subst. unfold full in Hg. simpl in Hl, C1.
-            rewrite app_nil_r, lenN_app in *. assert (Z : lenN (mw_cur m1) = 0) by lia.
+          - cbn [concat] in Hl. rewrite ?lenN_nil in Hl. lia.
+          - pose proof (Forall_inv F1) as Hg. unfold full in Hg. cbn [concat] in Hl, C1.
+            rewrite app_nil_r in Hl, C1. assert (Z : lenN (mw_cur m1) = 0) by lia.
             apply lenN_0 in Z. rewrite Z in *. rewrite app_nil_r in C1. split; [f_equal; exact C1|reflexivity].
-          - exfalso. inversion F1 as [|? ? Hg F2]; subst. inversion F2 as [|? ? Hg2 _]; subst.
-            unfold full in *. simpl in Hl. rewrite !lenN_app in Hl. lia. }
+          - exfalso. pose proof (Forall_inv F1) as Hg. pose proof (Forall_inv (Forall_inv_tail F1)) as Hg2.
+            unfold full in *. cbn [concat] in Hl. rewrite !lenN_app in Hl. lia. }
         destruct Hf1 as [-> Hc1].
         assert (Hlen : (length (dropN MB data) <= f)%nat).
         { assert (lenN (dropN MB data) < lenN data) by (rewrite lenN_dropN; lia).
@@ -322,11 +325,11 @@ Section Table.
       { rewrite <- C1, lenN_app, (lenN_concat_map_const fulls MB F1). reflexivity. }
       unfold chunks. rewrite lenN_app.
       destruct (mw_cur m) as [|c0 cr] eqn:Ec; simpl ne.
-      - rewrite lenN_nil in *. rewrite N.add_0_r.
+      - rewrite ?(@lenN_nil N), ?(@lenN_nil (list N)) in *. rewrite N.add_0_r.
         apply N.div_unique with (r := MB - 1); lia.
-      - rewrite lenN_cons, lenN_nil. rewrite lenN_cons in Hl, Lt1.
+      - rewrite lenN_cons, ?(@lenN_nil N), ?(@lenN_nil (list N)). rewrite lenN_cons in Hl, Lt1.
         apply N.div_unique with (r := lenN cr); lia. }
-    split; [rewrite Out; f_equal; f_equal; exact L1|].
+    split; [rewrite Out, L1; reflexivity|].
     split; [rewrite Out; reflexivity|].
     intros k Hk. rewrite Out. unfold table_locs.
     rewrite (nth_indep _ 0 (loc_of size0 [] chunks 0)) by (rewrite map_length, seq_length; exact Hk).
